@@ -10,6 +10,7 @@ CONSTANTS
   Entries = {"run", "call", "evaluate"}
   TracerStyles = {"none", "native", "calls"}
   Threadeds = {FALSE}
+  Givens = {}
   Flags = {"tracer_conditional_restore"}
 INVARIANT Restored
 INVARIANT Contained
